@@ -84,7 +84,9 @@ def native_replay(path):
 
 def save_replay(pid, rec):
     d = common.replay_dir()
-    name = f"{pid}-{rec['fn']}-{abs(hash(json.dumps(rec, sort_keys=True, default=str))) % 10**8:08d}.json"
+    import re
+    fn = re.sub(r"[^A-Za-z0-9_]+", "_", str(rec["fn"]))[:40]
+    name = f"{pid}-{fn}-{abs(hash(json.dumps(rec, sort_keys=True, default=str))) % 10**8:08d}.json"
     path = os.path.join(d, name)
     with open(path, "w") as f:
         json.dump(rec, f, indent=1, default=str)
